@@ -89,6 +89,29 @@ fn metered<T>(f: impl FnOnce() -> T) -> (T, u64) {
     (r, PEAK.with(|p| p.get()).max(0) as u64)
 }
 
+//============ logger: every log record of the library is formatted ==========
+
+/// Log statements are code that runs in production once the application has
+/// a logger. This one is enabled at every level and formats every record, so
+/// that a panic inside an argument's Display/Debug impl surfaces in whatever
+/// parse triggered the record (and is caught by that case's panic guard).
+struct FormattingLogger;
+static LOG_RECORDS: AtomicU64 = AtomicU64::new(0);
+static LOG_OCTETS: AtomicU64 = AtomicU64::new(0);
+
+impl log::Log for FormattingLogger {
+    fn enabled(&self, _: &log::Metadata) -> bool { true }
+    fn log(&self, record: &log::Record) {
+        use std::fmt::Write as _;
+        let mut s = String::new();
+        let _ = write!(s, "[{} {}] {}", record.level(), record.target(), record.args());
+        LOG_RECORDS.fetch_add(1, Ordering::Relaxed);
+        LOG_OCTETS.fetch_add(s.len() as u64, Ordering::Relaxed);
+    }
+    fn flush(&self) {}
+}
+static LOGGER: FormattingLogger = FormattingLogger;
+
 //============ deterministic failure reporting ===============================
 
 /// Failures found inside parallel loops are collected with an enumeration
@@ -276,17 +299,26 @@ impl Kind {
     fn name(self) -> &'static str { match self { Kind::Notification => "notification", Kind::Snapshot => "snapshot", Kind::Delta => "delta" } }
 }
 
+/// Display text of an error; its Debug form and its `source()` chain are
+/// formatted as well (inside the caller's panic guard) and thrown away.
+fn show_err<E: std::error::Error>(e: &E) -> String {
+    let _ = format!("{e:?}");
+    let mut src = e.source();
+    while let Some(s) = src { let _ = format!("{s} {s:?}"); src = s.source() }
+    e.to_string()
+}
+
 /// Parses `r` as the given file type with the real parser. Ok(summary) / Err(text).
 fn parse_as<R: io::BufRead>(kind: Kind, r: R) -> Result<u64, String> {
     match kind {
-        Kind::Notification => NotificationFile::parse(r).map(|n| n.deltas().len() as u64).map_err(|e| e.to_string()),
+        Kind::Notification => NotificationFile::parse(r).map(|n| n.deltas().len() as u64).map_err(|e| show_err(&e)),
         Kind::Snapshot => {
             let mut c = Collect::new(0);
-            <Collect as ProcessSnapshot>::process(&mut c, r).map(|_| c.seen.len() as u64).map_err(|e| e.to_string())
+            <Collect as ProcessSnapshot>::process(&mut c, r).map(|_| c.seen.len() as u64).map_err(|e| show_err(&e))
         }
         Kind::Delta => {
             let mut c = Collect::new(0);
-            <Collect as ProcessDelta>::process(&mut c, r).map(|_| c.seen.len() as u64).map_err(|e| e.to_string())
+            <Collect as ProcessDelta>::process(&mut c, r).map(|_| c.seen.len() as u64).map_err(|e| show_err(&e))
         }
     }
 }
@@ -712,7 +744,16 @@ fn roundtrip_snapshot(sess: Uuid, serial: u64, want: &[Seen], chunk: usize) -> R
 }
 
 fn roundtrip_delta(sess: Uuid, serial: u64, els: &[ElSpec], chunk: usize) -> Result<(), String> {
-    let delta = Delta::new(sess, serial, els.iter().map(|e| e.to_delta_element()).collect());
+    let want: Vec<Seen> = els.iter().map(|e| e.expect()).collect();
+    roundtrip_delta_seen(sess, serial, &want, chunk)
+}
+
+fn roundtrip_delta_seen(sess: Uuid, serial: u64, want: &[Seen], chunk: usize) -> Result<(), String> {
+    let delta = Delta::new(sess, serial, want.iter().map(|s| match s {
+        Seen::Publish { uri, hash: None, data } => PublishElement::new(uri.clone(), Bytes::copy_from_slice(data)).into(),
+        Seen::Publish { uri, hash: Some(h), data } => UpdateElement::new(uri.clone(), *h, Bytes::copy_from_slice(data)).into(),
+        Seen::Withdraw { uri, hash } => WithdrawElement::new(uri.clone(), *hash).into(),
+    }).collect());
     let mut xml = Vec::new();
     delta.write_xml(&mut xml).map_err(|e| format!("write_xml failed: {e}"))?;
     let back = Delta::parse(xml.as_slice()).map_err(|e| format!("written delta does not parse: {e}"))?;
@@ -1885,8 +1926,219 @@ fn space_base64(ctx: &Ctx) {
     sp.done(true, &format!("{} contents x {} layouts", data.len(), layouts.len()));
 }
 
+//============ scale: counts, sizes and lengths through the thresholds =======
+
+/// 0..=40, then k-1, k, k+1 for the powers of two up to `max`; quick keeps
+/// the neighbourhoods of 64..4096 and of 65536, thorough all of them.
+fn scale_set(max: u64, thorough: bool, extra: &[u64]) -> Vec<u64> {
+    let mut v: Vec<u64> = (0..=40u64).collect();
+    for k in [64u64, 128, 256, 512, 1024, 2048, 4096, 8192, 16384, 32768, 65536, 1 << 17, 1 << 18, 1 << 19, 1 << 20] {
+        let in_quick = k <= 4096 || k == 65536;
+        if thorough || in_quick { v.extend([k - 1, k, k + 1]) }
+    }
+    v.extend_from_slice(extra);
+    v.retain(|x| *x <= max);
+    v.sort(); v.dedup();
+    v
+}
+
+fn notification_with(n: u64, uri_len: usize) -> NotificationFile {
+    let h = hashes()[2];
+    let pad = "p".repeat(uri_len);
+    NotificationFile::new(sessions()[2], 10_000_000 + n, UriAndHash::new(https(&format!("https://h.example/{pad}/snapshot.xml")), h),
+        (0..n).map(|i| DeltaInfo::new(10_000_000 + i, https(&format!("https://h.example/{i:08}/{pad}/delta.xml")), h)).collect())
+}
+
+fn written_len(nf: &NotificationFile) -> u64 { let mut v = Vec::new(); let _ = nf.write_xml(&mut v); v.len() as u64 }
+
+fn space_scale(ctx: &Ctx) {
+    let thorough = ctx.tier.is_thorough();
+    let sp = ctx.space("scale.roundtrip",
+        "the round trip with every counted / measured quantity swept through 0..=40, the -1/0/+1 neighbourhoods of the powers of two (quick: 64..4096 and 65536; thorough: all up to 2^20) and the configured limits: (A) number of deltas in a notification, incl. the counts at which the file crosses 1,000,000 octets although every element is small, each also through parse_limited(n) == parse and parse_limited(n-1) => oversized; (B) number of elements in a snapshot and in a delta (kinds cycling); (C) object size in a snapshot publish and a delta update, incl. 749,999..750,001 octets (base64 of exactly 1,000,000) and in thorough one object whose element is just below 100,000,000 octets; (D) URI length in notification snapshot/delta entries (incl. an element just below 1,000,000 octets) and in a publish element; same oracles as the small cases; non-trivial = cases beyond 40");
+    let fails = Fails::new();
+    let mut bound: Vec<String> = Vec::new();
+    let big = |x: u64| if x > 40 { sp.nontrivial(1) };
+    // (A)
+    let (s0, s1) = (written_len(&notification_with(0, 0)), written_len(&notification_with(1, 0)));
+    let per = s1.saturating_sub(s0).max(1);
+    let cross = (HEADER_LIMIT.saturating_sub(s0)) / per + 1; // smallest count whose file is larger than the limit
+    let counts = scale_set(if thorough { 65537 } else { 4097 }, thorough, &[cross - 1, cross, cross + 1, 2 * cross]);
+    counts.par_iter().for_each(|&n| {
+        sp.eval(); big(n); sp.outcome(if n >= cross { "file-above-1MB" } else { "file-below-1MB" });
+        fails.check(n, "C09.roundtrip.notification", || format!("notification with {n} deltas of {per} octets each"), || {
+            let nf = notification_with(n, 0);
+            let xml = roundtrip_notification(&nf)?;
+            let same = NotificationFile::parse_limited(xml.as_slice(), n as usize).map_err(|e| format!("parse_limited({n}): {e}"))?;
+            if same != nf || same.delta_status().is_err() { return Err(format!("parse_limited({n}) differs from parse")) }
+            if n > 0 {
+                let fewer = NotificationFile::parse_limited(xml.as_slice(), n as usize - 1).map_err(|e| format!("parse_limited({}): {e}", n - 1))?;
+                if fewer.delta_status().is_ok() || !fewer.deltas().is_empty() { return Err(format!("parse_limited({}) of {n} deltas does not report an oversized list", n - 1)) }
+                if fewer.session_id() != nf.session_id() || fewer.serial() != nf.serial() || fewer.snapshot() != nf.snapshot() { return Err(format!("parse_limited({}) changes session/serial/snapshot", n - 1)) }
+            }
+            Ok(())
+        });
+    });
+    bound.push(format!("(A) {} delta counts up to {} (file crosses 1 MB at {cross})", counts.len(), counts.last().unwrap()));
+    // (B)
+    let counts = scale_set(if thorough { 65537 } else { 4097 }, thorough, &[]);
+    counts.par_iter().for_each(|&n| {
+        for snapshot in [true, false] {
+            sp.eval(); big(n); sp.outcome(if snapshot { "snapshot" } else { "delta" });
+            fails.check((1 << 40) | n << 1 | snapshot as u64, if snapshot { "C09.roundtrip.snapshot" } else { "C09.roundtrip.delta" }, || format!("{} with {n} elements", if snapshot { "snapshot" } else { "delta" }), || {
+                let hs = hashes();
+                let els: Vec<(ElSpec, String)> = (0..n).map(|i| {
+                    let data = DataSpec { len: (i % 5) as usize, pat: (i % 3) as u8 };
+                    let e = match if snapshot { 0 } else { i % 3 } { 0 => ElSpec::Publish { uri: 0, data }, 1 => ElSpec::Update { uri: 0, hash: (i % 3) as usize, data }, _ => ElSpec::Withdraw { uri: 0, hash: (i % 3) as usize } };
+                    (e, format!("rsync://h.example/m/{i:06}.roa"))
+                }).collect();
+                let want: Vec<Seen> = els.iter().map(|(e, u)| match *e {
+                    ElSpec::Publish { data, .. } => Seen::Publish { uri: rsync(u), hash: None, data: data.bytes().to_vec() },
+                    ElSpec::Update { hash, data, .. } => Seen::Publish { uri: rsync(u), hash: Some(hs[hash]), data: data.bytes().to_vec() },
+                    ElSpec::Withdraw { hash, .. } => Seen::Withdraw { uri: rsync(u), hash: hs[hash] },
+                }).collect();
+                if snapshot { roundtrip_snapshot(sessions()[2], n, &want, 0) } else { roundtrip_delta_seen(sessions()[2], n, &want, 0) }
+            });
+        }
+    });
+    bound.push(format!("(B) {} element counts up to {} x snapshot, delta", counts.len(), counts.last().unwrap()));
+    // (C)
+    let sizes = scale_set(1 << 20 | 1, thorough, &[749_999, 750_000, 750_001]);
+    sizes.par_iter().for_each(|&len| {
+        for snapshot in [true, false] {
+            sp.eval(); big(len); sp.outcome(if snapshot { "snapshot" } else { "delta" });
+            fails.check((2 << 40) | len << 1 | snapshot as u64, if snapshot { "C09.roundtrip.snapshot" } else { "C09.roundtrip.delta" }, || format!("{} with one object of {len} octets", if snapshot { "snapshot publish" } else { "delta update" }), || {
+                let data = big_data(len as usize);
+                let want = vec![Seen::Publish { uri: rsync("rsync://h.example/m/o.roa"), hash: if snapshot { None } else { Some(hashes()[2]) }, data }];
+                if snapshot { roundtrip_snapshot(sessions()[1], len, &want, 4096) } else { roundtrip_delta_seen(sessions()[1], len, &want, 0) }
+            });
+        }
+    });
+    bound.push(format!("(C) {} object sizes up to {} x snapshot, delta", sizes.len(), sizes.last().unwrap()));
+    if thorough {
+        // element just below MAX_FILE_SIZE: base64 of 99,999,000 octets; lean comparison (== and collector) to bound memory
+        sp.eval(); sp.nontrivial(1); sp.outcome("snapshot");
+        fails.check(3 << 40, "C09.roundtrip.snapshot", || "snapshot with one object of 74999250 octets (publish element just below 100,000,000 octets)".into(), || {
+            let data = Bytes::from(big_data(74_999_250));
+            let snap = Snapshot::new(sessions()[1], 1, vec![PublishElement::new(rsync("rsync://h.example/m/o.roa"), data.clone())]);
+            let mut xml = Vec::new();
+            snap.write_xml(&mut xml).map_err(|e| e.to_string())?;
+            let mut c = Collect::new(0);
+            <Collect as ProcessSnapshot>::process(&mut c, xml.as_slice()).map_err(|e| format!("written snapshot ({} octets) does not process: {e}", xml.len()))?;
+            match c.seen.as_slice() { [Seen::Publish { data: d, .. }] if d[..] == data[..] => Ok(()), _ => Err("object bytes differ".into()) }
+        });
+        bound.push("(C') one object at the 100 MB element limit".into());
+    }
+    // (D)
+    let near_limit = HEADER_LIMIT - 300; // the whole <snapshot .../> resp. <delta .../> element stays below the limit
+    let lens = scale_set(1 << 19 | 1, thorough, &[near_limit]);
+    lens.par_iter().for_each(|&len| {
+        sp.eval(); big(len); sp.outcome("notification-uri");
+        fails.check((4 << 40) | len, "C09.roundtrip.notification", || format!("notification with 2 deltas whose URIs (and the snapshot's) have a path segment of {len} octets"), || roundtrip_notification(&notification_with(2, len as usize)).map(|_| ()));
+        sp.eval(); big(len); sp.outcome("publish-uri");
+        fails.check((5 << 40) | len, "C09.roundtrip.snapshot", || format!("snapshot publish whose URI has a path segment of {len} octets"), || {
+            let want = vec![Seen::Publish { uri: rsync(&format!("rsync://h.example/m/{}/o.roa", "p".repeat(len as usize))), hash: None, data: vec![1, 2, 3] }];
+            roundtrip_snapshot(sessions()[0], 1, &want, 0)
+        });
+    });
+    bound.push(format!("(D) {} URI lengths up to {}", lens.len(), lens.last().unwrap()));
+    fails.flush_into(ctx, &sp);
+    sp.set("delta_count_at_which_file_crosses_1MB", json!(cross));
+    sp.sample_str(|| format!("notification with {cross} deltas of {per} octets each ({} octets)", s0 + cross * per));
+    sp.done(true, &bound.join("; "));
+}
+
+//============ names of every length; Debug / Display of the XML layer =======
+
+/// `len` octets: `shift` ASCII letters, then the unit repeated, cut at `len`
+/// (so a multi-octet unit is also cut at every possible place).
+fn name_bytes(len: usize, shift: usize, unit: &[u8]) -> Vec<u8> {
+    let mut v: Vec<u8> = std::iter::repeat_n(b'n', shift.min(len)).collect();
+    while v.len() < len { v.extend_from_slice(unit) }
+    v.truncate(len);
+    v
+}
+
+const NAME_UNITS: [(&str, &[u8]); 7] = [
+    ("ascii", b"a"), ("2-octet", "\u{e9}".as_bytes()), ("3-octet", "\u{20ac}".as_bytes()), ("4-octet", "\u{1F600}".as_bytes()),
+    ("invalid-ff", b"\xFF"), ("lone-continuation", b"a\x80"), ("overlong-lead", b"\xC0\xAFb"),
+];
+
+fn space_names(ctx: &Ctx) {
+    let thorough = ctx.tier.is_thorough();
+    let sp = ctx.space("names.lengths_and_formatting",
+        "names of length 0..=80, 127..=129, 255..=257 (documents: also the power-of-two neighbourhoods up to 65537 in quick / 2^20+1 in thorough, ASCII and 3-octet units) built from ASCII, 2-, 3-, 4-octet UTF-8 characters and three kinds of invalid UTF-8, at alignments 0..3 and cut at the length: (1) format!(\"{:?}\") of xml::decode::Name (namespace, local part, both) and Debug/Display of the errors: no panic; (2) documents whose root local name / namespace URI / prefix / attribute name / attribute value is such a name, given to all three parsers with a logger installed that formats every record at Trace level: no panic (the parser's log statements format these names); non-trivial = names that are not valid UTF-8 or longer than 64 octets");
+    let fails = Fails::new();
+    let (rec0, oct0) = (LOG_RECORDS.load(Ordering::Relaxed), LOG_OCTETS.load(Ordering::Relaxed));
+    let mut lens: Vec<usize> = (0..=80).collect();
+    lens.extend([127, 128, 129, 255, 256, 257]);
+    let mut cases: Vec<(usize, usize, usize)> = Vec::new(); // (len, shift, unit)
+    for &len in &lens { for shift in 0..4 { for u in 0..NAME_UNITS.len() { cases.push((len, shift, u)) } } }
+    let long: Vec<usize> = scale_set(if thorough { (1 << 20) + 1 } else { 65537 }, thorough, &[]).into_iter().map(|x| x as usize).filter(|x| *x > 257).collect();
+    for &len in &long { for shift in [0usize, 1] { for u in [0usize, 2, 4] { cases.push((len, shift, u)) } } }
+    cases.par_iter().enumerate().for_each(|(ci, &(len, shift, u))| {
+        let name = name_bytes(len, shift, NAME_UNITS[u].1);
+        let wit = |what: &str| format!("{what}: {} octets = {} 'n' then {} units cut at the length", len, shift.min(len), NAME_UNITS[u].0);
+        let nontrivial = std::str::from_utf8(&name).is_err() || len > 64;
+        let mut oc: BTreeMap<&'static str, u64> = BTreeMap::new();
+        let mut n = 0u64;
+        // (1) Debug of Name
+        let fixed: &[u8] = b"urn:x";
+        for (k, what) in ["Name::unqualified(name)", "Name::qualified(name, b\"x\")", "Name::qualified(b\"urn:x\", name)", "Name::qualified(name, name)"].into_iter().enumerate() {
+            n += 1;
+            let r = guard(|| {
+                let nm = match k { 0 => xd::Name::unqualified(&name), 1 => xd::Name::qualified(&name, b"x"), 2 => xd::Name::qualified(fixed, &name), _ => xd::Name::qualified(&name, &name) };
+                format!("{nm:?}").len()
+            });
+            match r {
+                Ok(_) => *oc.entry("formatted").or_insert(0) += 1,
+                Err(p) => { *oc.entry("panic").or_insert(0) += 1; fails.push((ci as u64) << 8 | k as u64, "C09.format.nopanic", wit(&format!("format!(\"{{:?}}\", {what})")), p) }
+            }
+        }
+        // (2) documents
+        let mut docs: Vec<(&'static str, Vec<u8>)> = Vec::new();
+        let attrs = format!("version=\"1\" session_id=\"{SID}\" serial=\"1\"");
+        let cat = |parts: &[&[u8]]| parts.concat();
+        docs.push(("root local name", cat(&[b"<", &name, b" xmlns=\"http://www.ripe.net/rpki/rrdp\" ", attrs.as_bytes(), b"/>"])));
+        docs.push(("namespace URI of a root called snapshot", cat(&[b"<snapshot xmlns=\"", &name, b"\" ", attrs.as_bytes(), b"/>"])));
+        docs.push(("namespace URI and local name", cat(&[b"<", &name, b" xmlns=\"", &name, b"\" ", attrs.as_bytes(), b"/>"])));
+        docs.push(("prefix", cat(&[b"<", &name, b":snapshot xmlns:", &name, b"=\"http://www.ripe.net/rpki/rrdp\" ", attrs.as_bytes(), b"/>"])));
+        docs.push(("attribute name on the root", cat(&[b"<snapshot xmlns=\"http://www.ripe.net/rpki/rrdp\" ", &name, b"=\"1\" ", attrs.as_bytes(), b"/>"])));
+        docs.push(("child local name", cat(&[b"<snapshot xmlns=\"http://www.ripe.net/rpki/rrdp\" ", attrs.as_bytes(), b"><", &name, b" uri=\"rsync://h.example/m/a\"/></snapshot>"])));
+        docs.push(("serial attribute value", cat(&[b"<snapshot xmlns=\"http://www.ripe.net/rpki/rrdp\" version=\"1\" session_id=\"", SID.as_bytes(), b"\" serial=\"", &name, b"\"/>"])));
+        for (di, (what, doc)) in docs.iter().enumerate() {
+            for (ki, kind) in [Kind::Notification, Kind::Snapshot, Kind::Delta].into_iter().enumerate() {
+                // the same document with the root the parser expects, where the shape has a fixed root
+                let doc: Vec<u8> = if kind == Kind::Snapshot { doc.clone() } else { replace_all(doc, b"snapshot", kind.name().as_bytes()) };
+                n += 1;
+                finite_case(&fails, (ci as u64) << 8 | 16 | (di as u64) << 2 | ki as u64, kind, &doc, &mut oc, || wit(&format!("{} parser, {what}", kind.name())));
+            }
+        }
+        sp.evals(n); if nontrivial { sp.nontrivial(1) } sp.merge_outcomes(&oc);
+    });
+    fails.flush_into(ctx, &sp);
+    sp.set("log_records_formatted_in_this_space", json!(LOG_RECORDS.load(Ordering::Relaxed) - rec0));
+    sp.set("log_octets_formatted_in_this_space", json!(LOG_OCTETS.load(Ordering::Relaxed) - oct0));
+    sp.set("units", json!(NAME_UNITS.iter().map(|u| u.0).collect::<Vec<_>>()));
+    sp.sample_str(|| format!("{:?}", xd::Name::qualified(&name_bytes(66, 1, NAME_UNITS[2].1), b"snapshot")));
+    sp.done(true, &format!("{} lengths x 4 alignments x 7 units + {} long lengths x 2 alignments x 3 units; each x 4 Name forms and 7 documents x 3 parsers", lens.len(), long.len()));
+}
+
+fn replace_all(hay: &[u8], from: &[u8], to: &[u8]) -> Vec<u8> {
+    let mut out = Vec::with_capacity(hay.len());
+    let mut i = 0;
+    while i < hay.len() {
+        if hay[i..].starts_with(from) { out.extend_from_slice(to); i += from.len() } else { out.push(hay[i]); i += 1 }
+    }
+    out
+}
+
 fn main() {
+    // before anything is parsed: every log record the library emits is formatted from now on
+    let logger_ok = log::set_logger(&LOGGER).is_ok();
+    log::set_max_level(log::LevelFilter::Trace);
     let ctx = Ctx::new("C09", "fault_enumeration");
+    if !logger_ok { ctx.machinery_error("could not install the formatting logger") }
+    ctx.assume("a process-wide logger at level Trace that formats every record is installed for the whole run, so the library's log statements are executed as they would be in an application that logs");
     ctx.assume("quick-xml, base64 and uuid are trusted to implement XML tokenising, base64 and UUID text; the check observes the library's use of them");
     ctx.assume("the per-element limits are the constants in rrdp.rs: 1_000_000 octets for the root element, 100_000_000 for publish/withdraw elements (and everything in a notification is under the 1_000_000 limit)");
     ctx.assume("`start of the offending element` is taken as the '<' of the markup containing the first hostile octet, or the first hostile octet itself outside markup (the most lenient reading)");
@@ -1895,12 +2147,13 @@ fn main() {
     // C09_ONLY=<comma list> is a development aid; a partial run is never a verdict.
     let only = std::env::var("C09_ONLY").ok();
     if only.is_some() { ctx.machinery_error("C09_ONLY is set: partial run") }
-    let spaces: [(&str, fn(&Ctx)); 13] = [
+    let spaces: [(&str, fn(&Ctx)); 15] = [
         ("deltas", space_deltas), ("origins", space_origins),
         ("rt_notification", space_rt_notification), ("rt_snapshot", space_rt_snapshot), ("rt_delta", space_rt_delta),
         ("short", space_hostile_short), ("pairs", space_hostile_pairs), ("mutations", space_hostile_mutations),
         ("bombs", space_hostile_bombs), ("endless", space_hostile_endless),
         ("xml_variants", space_xml_variants), ("xml_writer", space_xml_writer), ("base64", space_base64),
+        ("scale", space_scale), ("names", space_names),
     ];
     // The value spaces build their inputs from fixed URI alphabets. If the library under
     // test refuses one of these protocol-valid URIs, that is reported as a violation
